@@ -289,7 +289,7 @@ structure St where
   job : List JobRes := []          -- `job.result.tests`
   pending : List Exec := []        -- started, not yet finished
   issued : List Exec := []         -- ghost: every execution started so far (newest first)
-  preIssued : List (String × String) := []   -- ghost: ids of the pre-steps run so far (newest first)
+  preIssued : List Exec := []      -- ghost: the creation pre-steps run so far (newest first); `k` = own results then
 deriving Repr
 
 /-- `original_prefix + f"r{run_times}"` if `run_times > 0` -/
@@ -384,17 +384,26 @@ inductive Event where
   | start (i : Nat)                          -- `run_test_node(copy i)` up to `await run_test_task`
   | finish (j : Nat) (o : Outcome)           -- the j-th pending execution resumes and completes
   | replay (i : Nat) (prev : List Result)    -- `traverse_node`: previous results matching the bridged form
-  | pre (i : Nat) (o : Outcome)              -- creation pre-step of copy i (start to end)
+  | create (i : Nat) (o : Outcome)           -- `traverse_terminal_node` of object root copy i: pre-step, then
+                                             --   the main execution is started (success) or the failure is recorded
 deriving Repr
 
 inductive Obs where
   | started (e : Exec)
   | finished (e : Exec) (o : Outcome) (found : Option JobRes) (status : String)
-  | preRun (name uid : String) (o : Outcome) (found : Option JobRes) (status : String)
+  | created (pre : Exec) (o : Outcome) (found : Option JobRes) (status : String) (main : Option Exec)
   | replayed (n : Nat)
   | noop
   | failed (e : Err)
 deriving Repr
+
+/-- the part of `run_test_node(copy i)` before the suspension: retry counter = number of shared results,
+placeholder appended, execution pending -/
+def beginExec (s : St) (i : Nat) (c : Copy) : St × Exec :=
+  let k := sharedLen s.copies
+  let e : Exec := { copy := i, k := k, name := c.name, uid := uidOf c.pfx k }
+  ({ s with copies := updCopy s.copies i (fun c => { c with results := c.results ++ [unknownOf c.name] })
+            pending := s.pending ++ [e], issued := e :: s.issued }, e)
 
 /-- `run_test_node(copy i)` up to the suspension.  A copy belongs to one worker and a worker awaits the
 execution it started, so a copy with an execution in flight cannot be started again: that event is not
@@ -405,10 +414,8 @@ def start (s : St) (i : Nat) : St × Obs :=
   | none => (s, .noop)
   | some c =>
     if s.pending.any (fun e => e.copy == i) then (s, .noop) else
-    let k := sharedLen s.copies
-    let e : Exec := { copy := i, k := k, name := c.name, uid := uidOf c.pfx k }
-    ({ s with copies := updCopy s.copies i (fun c => { c with results := c.results ++ [unknownOf c.name] })
-              pending := s.pending ++ [e], issued := e :: s.issued }, .started e)
+    let r := beginExec s i c
+    (r.1, .started r.2)
 
 /-- resumption of the j-th pending execution -/
 def finish (s : St) (j : Nat) (o : Outcome) : St × Obs :=
@@ -434,23 +441,51 @@ def replayStep (s : St) (i : Nat) (prev : List Result) : St × Obs :=
        .replayed prev.length)
     else (s, .replayed 0)
 
-/-- `traverse_terminal_node`: `pre_node.results = list(test_node.results)`; `run_test_node(pre_node)`;
-the pre-node is private (not bridged) and dropped afterwards, only `job.result.tests` keeps its trace -/
-def preStep (s : St) (i : Nat) (o : Outcome) : St × Obs :=
+/-- `traverse_terminal_node` BEFORE /repo commit 7ba7970 (kept for the regression witness only, not an
+event of the machine): `pre_node.results = list(test_node.results)`; `run_test_node(pre_node)`; the pre-node
+is private (not bridged) and dropped afterwards, only `job.result.tests` keeps its trace — a failed
+pre-step left the root node's results unchanged. -/
+def preStepOld (s : St) (i : Nat) (o : Outcome) : St × Obs :=
   match s.copies[i]? with
   | none => (s, .noop)
   | some c =>
     let uid := uidOf c.prePfx c.results.length
+    let pe : Exec := { copy := i, k := c.results.length, name := c.preName, uid := uid }
     match settle (c.results ++ [unknownOf c.preName]) s.job c.preName uid o with
     | .error err => (s, .failed err)
-    | .ok r => ({ s with job := r.job, preIssued := (c.preName, uid) :: s.preIssued },
-                .preRun c.preName uid o r.found r.status)
+    | .ok r => ({ s with job := r.job, preIssued := pe :: s.preIssued }, .created pe o r.found r.status none)
+
+/-- `traverse_terminal_node(object root copy i)` as the traversal performs it (lines after the pre-node is
+parsed): `pre_node.results = list(test_node.results)`; `status = await run_test_node(pre_node)` (the pre-node
+is private, so its retry counter is the number of the root copy's OWN results and its prefix is `"0"`);
+on failure `test_node.results += pre_node.results[len(test_node.results):]` and return; on success
+`return await run_test_node(test_node)`, i.e. the main execution is started right away.  The pre-step is
+taken as one event: while it is suspended only `job.result.tests` can change, by records of other
+identifiers.  Like `start`, not enabled while the copy has an execution in flight. -/
+def createStep (s : St) (i : Nat) (o : Outcome) : St × Obs :=
+  match s.copies[i]? with
+  | none => (s, .noop)
+  | some c =>
+    if s.pending.any (fun e => e.copy == i) then (s, .noop) else
+    let uid := uidOf c.prePfx c.results.length
+    let pe : Exec := { copy := i, k := c.results.length, name := c.preName, uid := uid }
+    match settle (c.results ++ [unknownOf c.preName]) s.job c.preName uid o with
+    | .error err => (s, .failed err)
+    | .ok r =>
+      let s1 : St := { s with job := r.job, preIssued := pe :: s.preIssued }
+      if statusBool r.status then
+        let b := beginExec s1 i c
+        (b.1, .created pe o r.found r.status (some b.2))
+      else
+        ({ s1 with copies := updCopy s1.copies i
+                     (fun c => { c with results := c.results ++ r.results.drop c.results.length }) },
+         .created pe o r.found r.status none)
 
 def step (s : St) : Event → St × Obs
   | .start i => start s i
   | .finish j o => finish s j o
   | .replay i prev => replayStep s i prev
-  | .pre i o => preStep s i o
+  | .create i o => createStep s i o
 
 /-- run a list of events, collecting the observations (oldest first) -/
 def run (s : St) : List Event → St × List Obs
